@@ -87,7 +87,8 @@ def run_corr(cfg):
         Es = [int(x) for x in dom.get_elements_by_color()[0]]
         scale = float(np.max(np.abs(mat))) if mat.size else 0.0
         out.append({
-            "name": "%s/%s/%s" % (mname, skind, opname), "op": opname, "mesh": mname, "space": skind,
+            "name": "%s/%s/%s" % (mname, skind, opname), "op": opname, "mesh": mname, "space": skind, "kw": kw,
+            "kfloat": None if k is None else [complex(k).real, complex(k).imag],
             "k": None if k is None else bc.frc(k),
             "grid": bc.grid_dump(grid), "test": bc.space_dump(dual), "trial": bc.space_dump(dom),
             "quad": bc.quad_dump(qp, qw), "surr": bc.surr_dump(surr), "Et": Et, "Es": Es,
